@@ -45,6 +45,8 @@ PickTrace == /\ i < 0
                   \* reused = 1: the agent was built from a configuration object that had already
                   \* been converted at another epoch (another scenario's start)
                   /\ first' = IF Tr[j].reused = 1 THEN 22663 ELSE -1
+                  \* resited = 1: the agent's id stood for a facility at another site earlier in the process
+                  /\ prevLon' = IF Tr[j].resited = 1 THEN 30000 ELSE -1
              /\ pc' = "posed"
              \* (the host's time zone of the run is recorded in the trace for the reader; as designed it
              \*  has no influence, so the specification replays every trace in its UTC class)
